@@ -53,9 +53,14 @@ func (m *Mutex) Unlock() {
 	m.held = false
 }
 
-// RWMutex shim (no writer preference assumed).
+// RWMutex shim with the writer preference of the real one: Lock first takes the writers'
+// mutex and announces itself, from then on new RLock calls block; it then waits for the
+// readers that are already in to drain. (A read lock taken again by a goroutine that already
+// holds one therefore deadlocks once a writer has arrived in between - as it does in Go.)
 type RWMutex struct {
 	real    realsync.RWMutex
+	wmu     bool // the writers' mutex: one writer at a time announces / holds
+	pending bool // a writer has announced itself and waits for the readers to drain
 	writer  bool
 	readers int
 }
@@ -65,8 +70,10 @@ func (m *RWMutex) Lock() {
 		m.real.Lock()
 		return
 	}
-	vsched.Block("wlock", func() bool { return !m.writer && m.readers == 0 })
-	m.writer = true
+	vsched.Block("wlock-arrive", func() bool { return !m.wmu })
+	m.wmu, m.pending = true, true
+	vsched.Block("wlock", func() bool { return m.readers == 0 })
+	m.pending, m.writer = false, true
 }
 
 func (m *RWMutex) Unlock() {
@@ -77,7 +84,7 @@ func (m *RWMutex) Unlock() {
 	if !m.writer && !vsched.Aborting() {
 		panic("vsync: unlock of unlocked rwmutex")
 	}
-	m.writer = false
+	m.writer, m.wmu = false, false
 }
 
 func (m *RWMutex) RLock() {
@@ -85,7 +92,7 @@ func (m *RWMutex) RLock() {
 		m.real.RLock()
 		return
 	}
-	vsched.Block("rlock", func() bool { return !m.writer })
+	vsched.Block("rlock", func() bool { return !m.writer && !m.pending })
 	m.readers++
 }
 
